@@ -723,6 +723,19 @@ impl Exch {
         } else if !ended {
             return Err((self.k("read", "close-delimited-not-proceedable"), "close-delimited body: can_proceed() is false".into()));
         }
+        // is_on_chunk_boundary(): true exactly when the decoder stands in front of a chunk-size line
+        // (start of the body, or right after the CRLF that ends a chunk's data)
+        if framing == Framing::Chunked && !ended {
+            if let RespBody::Chunked { ranges, .. } = &m.body {
+                let body_start = body_end - m.body_bytes().len();
+                let at = self.consumed - body_start;
+                let want_boundary = at == 0 || ranges.iter().any(|(data_at, _, len)| data_at + len + 2 == at);
+                let AnyFlow::RecvBody(f) = &self.flow else { unreachable!() };
+                if f.is_on_chunk_boundary() != want_boundary {
+                    return Err((self.k("read", "chunk-boundary-query"), format!("{} coding bytes consumed ({}a chunk boundary) but is_on_chunk_boundary() = {}", at, if want_boundary { "" } else { "not " }, !want_boundary)));
+                }
+            }
+        }
         Ok(())
     }
 
